@@ -158,6 +158,8 @@ pub proof fn lemma_close_head(f0: ObjFiber, f1: ObjFiber, c: ObjUpvalue)
 }
 
 // linking a fresh cell for `location` in at position k (everything before k has a higher slot, everything from k on a lower one)
+#[verifier::rlimit(60)]
+#[verifier::spinoff_prover]
 pub proof fn lemma_capture_insert(f0: ObjFiber, f1: ObjFiber, k: int, c: int, location: usize, up: Option<UvCell>, p1: ObjUpvalue, c1: ObjUpvalue)
     requires
         f0.wf(), 0 <= k <= f0.open_list.len(), !f0.uvheap.cells.dom().contains(c),
@@ -271,15 +273,66 @@ impl ObjFiber {
     //@end
 }
 
-// the VM as far as this unit is concerned: the content of its active fiber
-pub struct Vm { pub fib: ObjFiber }
+// a function constant as far as the Closure instruction is concerned
+pub struct FnInfo { pub upvalue_count: usize }
+// the closure being created (its upvalue vector is written through `closure.upvalues.borrow_mut()[i] = …`)
+pub struct NewClosure { }
+// the VM as far as this unit is concerned: the content of its active fiber; for the Closure instruction: the operand
+// bytes ahead, the frame's slot base, the enclosing closure's upvalues and the new closure's upvalue vector
+pub struct Vm {
+    pub fib: ObjFiber,
+    pub ghost code: Seq<u8>,
+    pub ghost ip: int,
+    pub ghost slot_base: int,
+    pub ghost enclosing: Seq<UvCell>,
+    pub ghost fresh: Seq<UvCell>,       // upvalue vector of the closure under construction
+    pub ghost next_count: int,          // upvalue_count of the function constant the instruction names
+}
 
 impl Vm {
     // the active fiber (vm.rs active_fiber / active_fiber_mut; handle coherence is the subject of unit `fiber`)
     #[verifier::external_body]
     fn active_fiber(&self) -> (r: &ObjFiber) ensures *r == self.fib { unimplemented!() }
     #[verifier::external_body]
-    fn active_fiber_mut(&mut self) -> (r: &mut ObjFiber) ensures *r == old(self).fib, final(self).fib == *final(r) { unimplemented!() }
+    fn active_fiber_mut(&mut self) -> (r: &mut ObjFiber)
+        ensures *r == old(self).fib, final(self).fib == *final(r), final(self).code == old(self).code, final(self).ip == old(self).ip,
+            final(self).slot_base == old(self).slot_base, final(self).enclosing == old(self).enclosing, final(self).fresh == old(self).fresh, final(self).next_count == old(self).next_count,
+    { unimplemented!() }
+    pub open spec fn same_instr(&self, o: &Vm) -> bool { self.code == o.code && self.slot_base == o.slot_base && self.enclosing == o.enclosing && self.next_count == o.next_count }
+    // ---- the Closure instruction's environment (assumed)
+    #[verifier::external_body]
+    fn read_byte(&mut self) -> (r: u8)
+        requires 0 <= old(self).ip < old(self).code.len()
+        ensures r == old(self).code[old(self).ip], final(self).ip == old(self).ip + 1, final(self).fib == old(self).fib, old(self).same_instr(final(self)), final(self).fresh == old(self).fresh
+    { unimplemented!() }
+    // `match self.read_constant() { Value::ObjFunction(f) => f, _ => panic!(…) }`: the function constant (2 operand bytes)
+    #[verifier::external_body]
+    fn read_function_constant(&mut self) -> (r: FnInfo)
+        ensures r.upvalue_count == old(self).next_count, final(self).ip == old(self).ip + 2, final(self).fib == old(self).fib, old(self).same_instr(final(self)), final(self).fresh == old(self).fresh
+    { unimplemented!() }
+    // vm.rs new_root_obj_closure: a closure with `upvalue_count` placeholder upvalues
+    #[verifier::external_body]
+    fn new_root_obj_closure(&mut self, function: FnInfo) -> (r: NewClosure)
+        ensures final(self).fresh.len() == function.upvalue_count, final(self).ip == old(self).ip, final(self).fib == old(self).fib, old(self).same_instr(final(self))
+    { unimplemented!() }
+    #[verifier::external_body]
+    fn push_closure(&mut self, c: &NewClosure)
+        ensures final(self).ip == old(self).ip, final(self).fib == old(self).fib, old(self).same_instr(final(self)), final(self).fresh == old(self).fresh
+    { unimplemented!() }
+    #[verifier::external_body]
+    fn current_slot_base(&self) -> (r: usize) ensures r == self.slot_base { unimplemented!() }
+    // `…current_frame().unwrap().closure.upvalues.borrow()[index]`
+    #[verifier::external_body]
+    fn enclosing_upvalue(&self, index: usize) -> (r: UvCell) requires index < self.enclosing.len() ensures r == self.enclosing[index as int] { unimplemented!() }
+    // `closure.upvalues.borrow_mut()[i]` as a place
+    #[verifier::external_body]
+    fn fresh_slot(&mut self, i: usize) -> (r: &mut UvCell)
+        requires i < old(self).fresh.len()
+        ensures final(self).fresh == old(self).fresh.update(i as int, *final(r)), final(self).ip == old(self).ip, final(self).fib == old(self).fib, old(self).same_instr(final(self))
+    { unimplemented!() }
+    // what operand pair i of the instruction says (operands start right behind the function constant)
+    pub open spec fn op_is_local(&self, ip0: int, i: int) -> bool { self.code[ip0 + 2 * i] != 0 }
+    pub open spec fn op_index(&self, ip0: int, i: int) -> int { self.code[ip0 + 2 * i + 1] as int }
 
     // Capturing stack slot `location`: the cell already open for that slot is returned (so all closures capturing the
     // variable share one cell), otherwise exactly one fresh cell is linked in at its sorted position; every other open
@@ -299,8 +352,10 @@ impl Vm {
     //@  ensures forall|i: int| 0 <= i < old(self).fib.open_list.len() ==> final(self).fib.open_list.contains(#[trigger] old(self).fib.open_list[i]) && final(self).fib.uvheap.cells[old(self).fib.open_list[i]].data == old(self).fib.uvheap.cells[old(self).fib.open_list[i]].data
     //@  ensures (exists|i: int| 0 <= i < old(self).fib.open_list.len() && #[trigger] slot_at(old(self).fib.uvheap.cells, old(self).fib.open_list, i) == location) ==> final(self).fib.open_list == old(self).fib.open_list && final(self).fib.uvheap.cells == old(self).fib.uvheap.cells
     //@  ensures final(self).fib.open_list.len() <= old(self).fib.open_list.len() + 1
+    //@  ensures final(self).ip == old(self).ip, old(self).same_instr(final(self)), final(self).fresh == old(self).fresh
     //@  at body.start let ghost mut k: int = 0; proof { lemma_distinct(old(self).fib); }
     //@  loop 0 invariant 0 <= k <= self.fib.open_list.len(), self.fib == old(self).fib, self.fib.wf(), loc_addr == location
+    //@  loop 0 invariant self.ip == old(self).ip, old(self).same_instr(self), self.fresh == old(self).fresh
     //@  loop 0 invariant k < self.fib.open_list.len() ==> (upvalue matches Some(g) && g.id() == self.fib.open_list[k])
     //@  loop 0 invariant k == self.fib.open_list.len() ==> upvalue is None
     //@  loop 0 invariant k > 0 ==> (prev_upvalue matches Some(g) && g.id() == self.fib.open_list[k - 1])
@@ -314,6 +369,33 @@ impl Vm {
     //@  at loop0.end proof { k = k + 1; if k < self.fib.open_list.len() { assert(cell_ok(self.fib.uvheap.cells, self.fib.open_list, k)); } }
     //@  before_stmt "let created_upvalue =" proof { if k > 0 { assert(cell_ok(self.fib.uvheap.cells, self.fib.open_list, k - 1)); } }
     //@  at body.tail proof { self.fib.open_list = self.fib.open_list.insert(k, created_upvalue.id()); lemma_capture_insert(old(self).fib, self.fib, k, created_upvalue.id(), location, upvalue, if k > 0 { self.fib.uvheap.cells[old(self).fib.open_list[k - 1]] } else { self.fib.uvheap.cells[created_upvalue.id()] }, self.fib.uvheap.cells[created_upvalue.id()]); }
+    //@end
+
+    // The Closure instruction: operand pair i says either "local slot `index` of the running frame" — then upvalue i of
+    // the new closure is THE open cell of stack slot slot_base + index (shared with every other closure that captured
+    // that variable, capture_upvalue) — or "upvalue `index` of the running closure" — then it is that very cell.
+    //@fn file=yarel/src/vm.rs path=Vm::closure_impl
+    //@  subst "let function = match self.read_constant() { Value::ObjFunction(underlying) => underlying, _ => panic!(\"Expected ObjFunction.\"), };" => "let function = self.read_function_constant();"
+    //@  subst "let closure = self.new_root_obj_closure(function, self.active_module); self.push(Value::ObjClosure(closure.as_gc()));" => "let closure = self.new_root_obj_closure(function); self.push_closure(&closure);"
+    //@  subst "self.active_fiber().current_frame().unwrap().slot_base" => "self.current_slot_base()"
+    //@  subst "closure.upvalues.borrow_mut()[i] =" => "*self.fresh_slot(i) ="
+    //@  subst "self.active_fiber() .current_frame() .unwrap() .closure .upvalues .borrow()[index]" => "self.enclosing_upvalue(index)"
+    //@  requires old(self).fib.wf(), old(self).ip >= 0, old(self).slot_base >= 0, old(self).slot_base + 256 < usize::MAX
+    //@  requires 0 <= old(self).next_count, old(self).ip + 2 + 2 * old(self).next_count <= old(self).code.len()
+    //@  requires forall|i: int| 0 <= i && !old(self).op_is_local(old(self).ip + 2, i) ==> #[trigger] old(self).op_index(old(self).ip + 2, i) < old(self).enclosing.len()
+    //@  ensures final(self).fib.wf()
+    //@  ensures @captured_local_is_the_open_cell_of_that_slot forall|i: int| 0 <= i < final(self).fresh.len() && old(self).op_is_local(old(self).ip + 2, i) ==> final(self).fib.open_list.contains((#[trigger] final(self).fresh[i]).id()) && final(self).fib.uvheap.cells[final(self).fresh[i].id()].data == ObjUpvalueState::Open((old(self).slot_base + old(self).op_index(old(self).ip + 2, i)) as usize)
+    //@  ensures @captured_upvalue_is_the_enclosing_closures_cell forall|i: int| 0 <= i < final(self).fresh.len() && !old(self).op_is_local(old(self).ip + 2, i) ==> #[trigger] final(self).fresh[i] == old(self).enclosing[old(self).op_index(old(self).ip + 2, i)]
+    //@  ensures forall|j: int| 0 <= j < old(self).fib.open_list.len() ==> final(self).fib.open_list.contains(#[trigger] old(self).fib.open_list[j]) && final(self).fib.uvheap.cells[old(self).fib.open_list[j]].data == old(self).fib.uvheap.cells[old(self).fib.open_list[j]].data
+    //@  loop 0 iter it
+    //@  at loop0.start proof { assert(old(self).op_index(old(self).ip + 2, i as int) == self.code[self.ip + 1] as int); assert(old(self).op_is_local(old(self).ip + 2, i as int) == (self.code[self.ip] != 0)); }
+    //@  loop 0 invariant it.snapshot.start == 0, it.snapshot.end == upvalue_count, upvalue_count == self.fresh.len()
+    //@  loop 0 invariant self.fib.wf(), old(self).same_instr(self), self.ip == old(self).ip + 2 + 2 * it.index@
+    //@  loop 0 invariant old(self).ip >= 0, old(self).slot_base >= 0, old(self).slot_base + 256 < usize::MAX, upvalue_count == old(self).next_count, old(self).ip + 2 + 2 * old(self).next_count <= old(self).code.len()
+    //@  loop 0 invariant forall|i: int| 0 <= i && !old(self).op_is_local(old(self).ip + 2, i) ==> #[trigger] old(self).op_index(old(self).ip + 2, i) < old(self).enclosing.len()
+    //@  loop 0 invariant forall|i: int| 0 <= i < it.index@ && old(self).op_is_local(old(self).ip + 2, i) ==> self.fib.open_list.contains((#[trigger] self.fresh[i]).id()) && self.fib.uvheap.cells[self.fresh[i].id()].data == ObjUpvalueState::Open((old(self).slot_base + old(self).op_index(old(self).ip + 2, i)) as usize)
+    //@  loop 0 invariant forall|i: int| 0 <= i < it.index@ && !old(self).op_is_local(old(self).ip + 2, i) ==> #[trigger] self.fresh[i] == old(self).enclosing[old(self).op_index(old(self).ip + 2, i)]
+    //@  loop 0 invariant forall|j: int| 0 <= j < old(self).fib.open_list.len() ==> self.fib.open_list.contains(#[trigger] old(self).fib.open_list[j]) && self.fib.uvheap.cells[old(self).fib.open_list[j]].data == old(self).fib.uvheap.cells[old(self).fib.open_list[j]].data
     //@end
 }
 
